@@ -55,8 +55,10 @@ class Scenario:
             env.spawn(caller, "caller")
         else:
             tail = ("block",) if context == "threading" else ("forever", 0.4)
+            at = params.get("call_at", 0.5)
             kit.submit({"id": "caller", "flavour": context,
-                        "steps": [("sleep", 0.5)] + steps + [("log", "calls-done"), tail]})
+                        "steps": ([("sleep", at)] if at else []) + steps
+                        + [("log", "calls-done"), tail]})
 
         def driver():
             runtime.running.wait()
@@ -178,6 +180,12 @@ def scenario_params(tier):
         for duration in ((0.0,) if tier == "quick" else (0.0, 0.3)):
             out.append({"context": context,
                         "calls": [(flavour, outcome, next(counter) % len(ARGS), duration)]})
+    # the call is the very first step of a payload queued before the runtime starts
+    for context, flavour in itertools.product(CONTEXTS[1:], FLAVOURS):
+        if allowed(context, flavour):
+            for outcome in (("return", "object"), ("raise", "LookupError")):
+                out.append({"context": context, "call_at": 0.0,
+                            "calls": [(flavour, outcome, 1, 0.0)]})
     # sequences of two and three calls
     seqs = [[("return", "0"), ("raise", "LookupError")],
             [("raise", "UserError"), ("return", "object")],
